@@ -37,7 +37,8 @@ def bounds(tier):
 def universe():
     u = [('M',), ('F',), ('S', 20, 1.0), ('S', 30, 2.0), ('S', 15, None),
          ('S', 22, 0.1, 'cm'), ('S', 26, 1.0, 'cm'), ('S', 28, 0.002, 'm'),      # the same and other modules written in other units
-         ('H', 20, 20.0, 'deg'), ('H', 25, math.radians(20.0), 'rad'), ('H', 30, 30.0, 'deg')]
+         ('H', 20, 20.0, 'deg'), ('H', 25, math.radians(20.0), 'rad'), ('H', 30, 30.0, 'deg'),
+         ('H', 21, 20.0, 'deg', 1.0), ('H', 27, 20.0, 'deg', 2.0), ('H', 33, 20.0, 'deg', 0.1, 'cm')]   # helical gears with modules
     for a in ALPHAS:
         for b in (0.0, 5.0, 15.0, MAXH[a]):
             for unit in ('deg', 'rad'):
@@ -57,7 +58,8 @@ def build(desc, name):
         return SpurGear(name=name, n_teeth=desc[1], inertia_moment=J1,
                         module=None if desc[2] is None else Length(desc[2], desc[3] if len(desc) > 3 else 'mm'))
     if k == 'H':
-        return HelicalGear(name=name, n_teeth=desc[1], inertia_moment=J1, helix_angle=Angle(desc[2], desc[3]))
+        return HelicalGear(name=name, n_teeth=desc[1], inertia_moment=J1, helix_angle=Angle(desc[2], desc[3]),
+                           module=None if len(desc) < 5 else Length(desc[4], desc[5] if len(desc) > 5 else 'mm'))
     if k == 'Wg':
         return WormGear(name=name, n_starts=desc[1], inertia_moment=J1, pressure_angle=Angle(desc[2], 'deg'),
                         helix_angle=Angle(desc[3], desc[4]))
@@ -126,6 +128,8 @@ def ref_gear(da, db, same, eff):
     if not 0 <= eff <= 1:
         return 'reject'
     def module_si(d):
+        if d[0] == 'H':
+            return None if len(d) < 5 else si.si(d[4], 'Length', d[5] if len(d) > 5 else 'mm')
         if d[0] != 'S' or d[2] is None:
             return None
         return si.si(d[2], 'Length', d[3] if len(d) > 3 else 'mm')
